@@ -2,7 +2,8 @@
 Decides: (a) calculate_majority_matched_index returns Some(i) only when entry(i).term == current_term and
 i >= commit_index, with i = element len/2 of the descending sort of (peer matches + own last index);
 (b) every vector handed to it is `match_index` filtered by a closure that keeps only peers whose
-NodeMeta.role != Learner; (c) match_index only advances, next_index never drops below match+1, and
+NodeMeta.role != Learner; (e) that map holds an element for EVERY voter from the moment of election (a peer that has
+not acknowledged yet must count as 0, not be absent - otherwise the median is taken over the peers that answered); (c) match_index only advances, next_index never drops below match+1, and
 match_index is written only from a response's own PeerUpdate; (d) the leader advances its commit index
 only with such a result, or with its own last index under the single-voter flag, which derives from
 voters().len()+1 == 1.  Necessary conditions; truthfulness of match_index is not decided."""
@@ -61,6 +62,7 @@ def _is_filtered_matches(F, e, owner_body):
 
 def run(ctx):
     F = ctx.F
+    run_e(ctx)
     # ---------------------------------------------------------------- C09-a
     f = ctx.anchor(F.method, "BufferedRaftLog", "calculate_majority_matched_index")
     if f:
@@ -208,3 +210,67 @@ def run(ctx):
                 s = Slice(F, mbb).operand(o)
                 ctx.check("C09-d", "%s#single_voter" % fkey(b), s.has_call(r"Membership::voters$") and "1" in s.consts() and ("binop", "Eq") in s.sources,
                           "single_voter = (voters().len() + 1 == 1)", "single_voter does not derive from Membership::voters(): %s" % sorted(s.sources)[:6], loc(mbb, bi))
+
+
+def _always_inserts(F, fn, field, depth=0):
+    """does every returning path of fn insert into (or obtain an entry of) self.<field>?"""
+    mb = F.main_body(fn)
+    try:
+        paths, _ev = pathsym.decision_table(F, mb)
+    except pathsym.TooComplex:
+        return None, "not loop-free"
+    if not paths:
+        return None, "no paths"
+    missing = []
+    for p in paths:
+        hit = False
+        for (k, args, blk) in p.effects:
+            nm = strip_generics(k)
+            if re.search(r"(HashMap|BTreeMap)::(insert|entry)$|Entry::or_insert(_with)?$", nm) and args and mentions(args[0], lambda x: x[0] == "field" and x[2] == field):
+                hit = True
+        if not hit:
+            missing.append(" & ".join("%s=%s" % (sym_show(e), o) for (e, o) in p.conds) or "unconditional")
+    return (not missing), missing
+
+
+def run_e(ctx):
+    F = ctx.F
+    init = ctx.anchor(F.method, "LeaderState", "init_peers_next_index_and_match_index")
+    if not init:
+        return
+    mb = F.main_body(init)
+    # direct insert in the loop, or a callee that inserts on every path
+    direct = field_receiver_calls(F, mb, "LeaderState", "match_index", r"(HashMap|BTreeMap)::(insert|entry)$")
+    ok = bool(direct)
+    why = ""
+    if not ok:
+        cands = [t for (_bi, t) in mb.calls() if any(tg in F.bodies and F.fn_reaches(tg, lambda k: True, 1) is not None for tg in F.resolve_targets(t))]
+        for t in cands:
+            for tg in F.resolve_targets(t):
+                b = F.bodies.get(tg)
+                if b is None or not any(field_receiver_calls(F, x, "LeaderState", "match_index", r"(HashMap|BTreeMap)::(insert|entry)$") for x in F.group_bodies(tg)):
+                    continue
+                res, missing = _always_inserts(F, b, "match_index")
+                if res:
+                    ok = True
+                else:
+                    why = "%s leaves match_index without an element on the path(s) [%s]" % (fkey(b), "; ".join(missing[:2]) if isinstance(missing, list) else missing)
+    ctx.check("C09-e", "%s#every-voter-has-a-match-entry" % fkey(init), ok,
+              "every peer gets a match_index element when the leader is initialised",
+              "after an election the leader's match_index has NO element for peers that have not acknowledged yet (%s); the quorum vector is built from the "
+              "elements present, so the median is taken over {leader} + {peers that answered}: a fresh leader of 3 commits on its own flush with zero ACKs, "
+              "a fresh leader of 5 commits with one ACK" % why, "%s:%s" % (mb.file, mb.line))
+    # the initialisation is invoked on the way to leadership with all peers
+    ev = ctx.anchor(F.method, "Raft", "handle_internal_event")
+    if ev:
+        mbe = F.main_body(ev)
+        calls = calls_matching(mbe, r"init_peers_next_index_and_match_index$")
+        conds = edge_conditions(mbe)
+        good = False
+        for (bi, t) in calls:
+            g, _w, _ = guarded_by(mbe, bi, lambda c: c.kind == "discr" and c.variants == {"BecomeLeader"}, conds)
+            s = Slice(F, mbe, through_calls=True).operand(t["args"][2])
+            if g and s.has_call(r"Membership::get_peers_id_with_condition$|Membership::voters$|Membership::replication_peers$"):
+                good = True
+        ctx.check("C09-e", "%s#init-on-BecomeLeader" % fkey(ev), good, "match/next index are initialised for all peers in the BecomeLeader arm",
+                  "the BecomeLeader arm does not initialise match_index for the membership's peers", "%s:%s" % (mbe.file, mbe.line))
